@@ -1,13 +1,16 @@
 // C11 correspondence harness: pkg/bootflow/types/data.go (reference algebra) and
 // fiano pkg/bytes/range.go against Model/Ranges.v + Model/Refs.v (values) and
-// Model/RefsHeap.v (slices in backing arrays).
+// Model/RefsHeap.v (slices in backing arrays), Model/RefsBytes.v (the arrays of
+// bytes handed out) and Model/RegFile.v (register files TXTPublic / AMDRegisters).
 //
 // Files: main.go (artifact pool, Gallina printers, drivers of the real code),
 // gen.go (case generators for single calls), oracle.go (independent oracle: set
 // algebra on explicit offset sets per (artifact identity, mapper identity),
 // written from the property text), prog.go (programs: harness-made memory,
 // sequences of operations with every result kept, the whole memory projected
-// and deep-copied after every operation; the oracle's frame rules).
+// and deep-copied after every operation, every array of bytes handed out
+// included; the oracle's frame rules), regs.go (the real register-file artifacts:
+// generation, ReadAt sequences on one object, the oracle's register space).
 package main
 
 import (
